@@ -3,12 +3,14 @@ import itertools
 import vlib
 from vlib import b, coq_orient
 
-CASE_TYPE = "(dcase * dout)"
+CASE_TYPE = "(c14case * c14out)"
 PER_SHARD = 250
 RULE = ("exhaustive: SetAddressMode::new and From<&ModelOptions> for all 2x8x4 inputs, and every chain of "
         "with_color_order/with_orientation/with_refresh_order of length <= 3 from default() (14+196+2744 chains; every "
         "reachable byte occurs as a start byte); fill_params_buf on 0xEE-prefilled buffers of length 1 and 16, write_command "
-        "directly and through the &mut T forwarding impl; non-trivial = chain touches >= 2 distinct fields or a non-default input")
+        "directly and through the &mut T forwarding impl; plus Displays built with every (colour order, refresh order, orientation) "
+        "and re-oriented at run time by set_orientation (absolute, and by words over rotate/flip; one call in eight fails at the bus): "
+        "the address mode held by the reference controller after init and after every call is compared with the bit assignment; non-trivial = chain touches >= 2 distinct fields or a non-default input")
 TRUSTED = ["Oracle/Spec.v spec_madctl: MIPI-DCS bit assignment B7..B2 written as arithmetic"]
 ASSUMPTIONS = ["SetAddressMode values are only constructible through new/default/with_* (private field)"]
 
@@ -61,4 +63,53 @@ def gen(rng, tier, info):
                                    nontrivial=len(set(s[0] for s in chain)) >= 2))
     # a zero-length buffer must panic (index out of bounds), not write
     cases.append(vlib.Case("dcs 0 madnew 1 1 0 0 0", "(0, DMadNew true %s false false)" % coq_orient(1, 0), "db", tags=["short-buffer"]))
+    for c in cases:
+        c.coq = "C14D %s" % c.coq
+    # the byte a Display sends: at init and after every runtime orientation change, for every (colour order, refresh order)
+    # it was configured with — "changing one input on an existing value changes only that input's bits"
+    from props import drawgen
+    k = 0
+    for bgr in (0, 1):
+        for btt in (0, 1):
+            for rtl in (0, 1):
+                for a in range(8):
+                    for reps in range(2 if tier == "quick" else 6):
+                        pc, m, lw, lh, cmax = drawgen.config(rng, info, small=True)
+                        o = pc["opts"]
+                        o["bgr"], o["btt"], o["rtl"] = bool(bgr), bool(btt), bool(rtl)
+                        o["rot"], o["mir"] = a % 4, bool(a // 4)
+                        ops = []
+                        cur = (o["rot"], o["mir"])
+                        for _ in range(rng.range(1, 4)):
+                            if rng.chance(1, 2):
+                                nr, nm = rng.below(4), bool(rng.below(2))
+                                ops.append((0 if rng.chance(1, 8) else -1, ("so", nr, int(nm))))
+                                if ops[-1][0] < 0:
+                                    cur = (nr, nm)
+                            else:
+                                w = [rng.below(6) for _ in range(rng.range(1, 3))]
+                                r2, m2 = cur
+                                for x in w:
+                                    r2, m2 = vlib.compose_orient(r2, m2, x)
+                                ops.append((-1, ("sow", w, r2, m2)))
+                                cur = (r2, m2)
+                        pc["ops"] = ops
+                        pc["tags"] = ["display", "bgr%d-btt%d-rtl%d" % (bgr, btt, rtl)]
+                        pc["nontrivial"] = bool(btt or rtl or bgr)
+                        c = vlib.pcase(pc)
+                        c.coq = "C14P (%s)" % c.coq
+                        cases.append(c)
     return cases
+
+
+def wrap_impl(case, impl):
+    return ("C14PO " if case.line.startswith("prog") else "C14DO ") + impl
+
+
+def shrink(case):
+    from props import drawgen
+    out = drawgen.shrink_prog(case)
+    for c in out:
+        c.coq = "C14P (%s)" % c.coq
+        c.tags = list(case.tags)
+    return out
